@@ -18,6 +18,7 @@ RULE = ("A fresh KNNSubgraph per case (public API only): n=2..30 (quick) / ..70 
         "min/max of sum(exp(-d/c))/(k+1) within 1e-12 rel., affine map to [1,MAX_DENSITY] (extremes exact, values within conditioning-aware "
         "tolerance, order preserved), cost == density-1; in 30% of the cases the density is re-estimated for a k' <= k after assigning the bound of rank k' (the unsupervised models' sequence). eliminate_maxima_height for positive / zero / negative h. Non-trivial: n>=5, 2<=k<=n-2 and "
         "an insertion that displaces an earlier candidate; distinct = case hash.")
+RULE += (' 12% of the on-the-fly cases hand a decoy table over with the switch off (must be ignored).')
 ASSUMPTIONS = [
     "one arc creation on a fresh subgraph (the code never resets the density bound between calls - outside the statement)",
     "density values are compared with a tolerance scaled by the conditioning of the affine map, 999*max(pdf)/(max-min)*1e-12 + 1e-9; when max-min <= 1e-12*max only the extremes/all-equal clause is judged",
